@@ -41,16 +41,16 @@ Qed.
 (* ---------- get_msg / insert / gc ---------- *)
 Lemma has_msg_gc lo b k : has_msg (gc lo b) k = true -> has_msg b k = true.
 Proof.
-  unfold has_msg. induction b as [|[k' m'] t IH]; cbn; auto.
-  destruct (k' <? lo) eqn:E; cbn; auto.
-  intros H. destruct (k' =? k) eqn:E2; auto.
+  unfold has_msg. induction b as [|[k' m'] t IH]; auto.
+  cbn [gc]. destruct (k' <? lo) eqn:E; auto.
+  intros H. cbn [get_msg]. destruct (k' =? k) eqn:E2; auto.
 Qed.
 
 Lemma gc_length lo b : length (gc lo b) <= length b.
-Proof. induction b as [|[k m] t IH]; cbn; auto. destruct (k <? lo); cbn; lia. Qed.
+Proof. induction b as [|[k m] t IH]; cbn [gc length]; auto. destruct (k <? lo); cbn [length]; lia. Qed.
 
 Lemma insert_length k m b : length (insert k m b) = S (length b).
-Proof. induction b as [|[k' m'] t IH]; cbn; auto. destruct (k <? k'); cbn; lia. Qed.
+Proof. induction b as [|[k' m'] t IH]; cbn [insert length]; auto. destruct (k <? k'); cbn [length]; lia. Qed.
 
 (* ---------- the segment view: numbers a .. a+len-1 of the message list A ---------- *)
 Fixpoint seg (A : list msg) (a len : nat) : list (nat * msg) :=
@@ -71,16 +71,16 @@ Lemma get_msg_seg A a len k :
   a + len <= length A ->
   get_msg (seg A a len) k = if (a <=? k) && (k <? a + len) then nth_error A k else None.
 Proof.
-  revert a; induction len as [|l IH]; intros a H; cbn.
-  - destruct (a <=? k) eqn:E1, (k <? a + 0) eqn:E2; cbn; auto; lia.
+  revert a; induction len as [|l IH]; intros a H; cbn [seg get_msg].
+  - destruct (a <=? k) eqn:E1, (k <? a + 0) eqn:E2; cbn [andb]; auto; lia.
   - destruct (nth_error A a) eqn:E.
-    + cbn. destruct (a =? k) eqn:Eak.
+    + cbn [get_msg]. destruct (a =? k) eqn:Eak.
       * apply Nat.eqb_eq in Eak; subst k.
         replace (a <=? a) with true by (symmetry; apply Nat.leb_le; lia).
-        replace (a <? a + S l) with true by (symmetry; apply Nat.ltb_lt; lia). cbn. auto.
+        replace (a <? a + S l) with true by (symmetry; apply Nat.ltb_lt; lia). cbn [andb]. auto.
       * rewrite IH by lia. apply Nat.eqb_neq in Eak.
         destruct (S a <=? k) eqn:E1, (a <=? k) eqn:E2, (k <? S a + l) eqn:E3, (k <? a + S l) eqn:E4;
-          cbn; auto; lia.
+          cbn [andb]; auto; lia.
     + apply nth_error_None in E. lia.
 Qed.
 
@@ -97,7 +97,7 @@ Lemma insert_seg A a len m :
   nth_error A (a + len) = Some m -> insert (a + len) m (seg A a len) = seg A a (S len).
 Proof.
   revert a; induction len as [|l IH]; intros a H.
-  - cbn. rewrite Nat.add_0_r in H. now rewrite H.
+  - rewrite Nat.add_0_r in *. cbn [seg insert]. now rewrite H.
   - cbn [seg]. destruct (nth_error A a) eqn:E.
     + cbn [insert]. replace (a + S l <? a) with false by (symmetry; apply Nat.ltb_ge; lia).
       f_equal. replace (a + S l) with (S a + l) in * by lia. rewrite IH by auto. reflexivity.
@@ -143,32 +143,41 @@ Proof.
       * rewrite IH by lia.
         replace (a + len - n) with (S (a + len - S n)) by lia.
         assert (Hs : skipn n A = m :: skipn (S n) A).
-        { clear - E. revert n E; induction A as [|h t IHA]; intros [|n] E; cbn in *; try congruence.
-          - inversion E; auto.
-          - apply IHA in E. destruct n; auto. }
+        { clear - E. revert n E; induction A as [|h t IHA]; intros [|n] E; cbn [nth_error skipn] in *;
+            try congruence.
+          apply IHA in E. exact E. }
         rewrite Hs. cbn [firstn stop_in]. reflexivity.
       * apply nth_error_None in E. lia.
 Qed.
 
 (* ---------- min_nread ---------- *)
+Lemma min_nread_one h : min_nread [h] = r_nread h.
+Proof. reflexivity. Qed.
+Lemma min_nread_cons h h2 t : min_nread (h :: h2 :: t) = Nat.min (r_nread h) (min_nread (h2 :: t)).
+Proof. reflexivity. Qed.
+
 Lemma min_nread_le l i r : nth_error l i = Some r -> min_nread l <= r_nread r.
 Proof.
-  revert i; induction l as [|h t IH]; intros [|i] H; cbn in *; try congruence.
-  - inversion H; subst. destruct t; lia.
-  - destruct t as [|h2 t2]; [destruct i; cbn in H; congruence|].
-    specialize (IH _ H). cbn [min_nread] in *. lia.
+  revert i; induction l as [|h t IH]; intros i H.
+  - destruct i; discriminate.
+  - destruct t as [|h2 t2].
+    + destruct i as [|i]; cbn [nth_error] in H; [inversion H; subst; rewrite min_nread_one; lia|].
+      destruct i; discriminate.
+    + rewrite min_nread_cons. destruct i as [|i]; cbn [nth_error] in H.
+      * inversion H; subst. lia.
+      * specialize (IH _ H). lia.
 Qed.
 
 Lemma min_nread_in l : l <> [] -> exists i r, nth_error l i = Some r /\ r_nread r = min_nread l.
 Proof.
   induction l as [|h t IH]; [congruence|]. intros _.
   destruct t as [|h2 t2].
-  - exists 0, h. cbn. auto.
+  - exists 0, h. split; reflexivity.
   - destruct IH as (i & r & Hi & Hr); [congruence|].
-    cbn [min_nread] in *.
+    rewrite min_nread_cons.
     destruct (Nat.le_gt_cases (r_nread h) (min_nread (h2 :: t2))).
-    + exists 0, h. cbn [nth_error]. split; auto. cbn [min_nread] in *. lia.
-    + exists (S i), r. cbn [nth_error]. split; auto. cbn [min_nread] in *. lia.
+    + exists 0, h. split; [reflexivity|lia].
+    + exists (S i), r. split; [exact Hi|lia].
 Qed.
 
 Lemma min_nread_ge l b : l <> [] -> (forall i r, nth_error l i = Some r -> b <= r_nread r) -> b <= min_nread l.
@@ -176,7 +185,11 @@ Proof.
   intros Hne H. destruct (min_nread_in l Hne) as (i & r & Hi & Hr). rewrite <- Hr. eauto.
 Qed.
 
-Lemma min_nread_map_woken l w : min_nread (map (fun r => rd_set_woken r w) l) = min_nread l.
+Lemma min_nread_map l (f : reader -> reader) :
+  (forall r, r_nread (f r) = r_nread r) -> min_nread (map f l) = min_nread l.
 Proof.
-  induction l as [|h t IH]; cbn; auto. destruct t; cbn in *; auto. rewrite <- IH. reflexivity.
+  intros Hf. induction l as [|h t IH]; auto.
+  destruct t as [|h2 t2].
+  - cbn [map]. rewrite !min_nread_one. apply Hf.
+  - cbn [map] in *. rewrite !min_nread_cons, Hf, IH. reflexivity.
 Qed.
